@@ -457,6 +457,74 @@ fn case2<T: Elem>(case: u64, args: &Args, ev: &mut Ev, log: &mut EventLog) {
     log.push(&event2("C08", case, &spec_c, &qxv, &qyv, &col_a, "interp_array(lane of n-d)", &["blend"]));
 }
 
+/// a lane whose data are exactly zero (a field at rest) with prescribed end derivatives: every
+/// ordered pair of end conditions for lane 0, once with all other lanes zero as well and once with
+/// the other lanes non-zero - lane 0 must come out bit for bit the same, and (whenever an end
+/// derivative is prescribed as non-zero) must not be the zero function
+fn zero_block_gate(ev: &mut Ev) {
+    let kinds = |d: f64| -> [SB<f64>; 7] {
+        [SB::NotAKnot, SB::Natural, SB::Clamped, SB::FirstDeriv(d), SB::SecondDeriv(-2.0 * d), SB::FirstDeriv(0.0), SB::SecondDeriv(0.0)]
+    };
+    let n = 6usize;
+    let x: Vec<f64> = vec![0.0, 0.5, 1.25, 2.0, 3.5, 4.0];
+    let q: Vec<f64> = vec![0.0, 0.25, 0.5, 1.0, 1.9, 2.75, 3.5, 3.9, 4.0];
+    let qa = Query::from_vec(q.clone(), &[q.len()], QKind::S1);
+    let mut id = 9_000_000u64;
+    for lane_shape in [vec![2usize], vec![1, 2], vec![2, 2], vec![3, 1], vec![1], vec![1, 1]] {
+        let lanes: usize = lane_shape.iter().product();
+        for (li, l) in kinds(0.75).iter().enumerate() {
+            for (ri, r) in kinds(-1.5).iter().enumerate() {
+                for other in [RB::NotAKnot, RB::Natural, RB::Mixed(SB::FirstDeriv(0.0), SB::SecondDeriv(0.0)), RB::Mixed(SB::Natural, SB::FirstDeriv(2.0))] {
+                    id += 1;
+                    let mut shape = vec![n];
+                    shape.extend(&lane_shape);
+                    let mut bshape = vec![1usize];
+                    bshape.extend(&lane_shape);
+                    let mut rows: Vec<RB<f64>> = vec![other.clone(); lanes];
+                    rows[0] = RB::Mixed(l.clone(), r.clone());
+                    let strat = Strat1::Spline { extrapolate: false, boundary: Bound::Individual(ArrayD::from_shape_vec(IxDyn(&bshape), rows).unwrap()) };
+                    let spec_a = Spec1::new(ArrayD::<f64>::zeros(IxDyn(&shape)), Some(Array1::from(x.clone())), strat.clone());
+                    let mut flat = vec![0.0f64; n * lanes];
+                    for i in 0..n {
+                        for lane in 1..lanes {
+                            flat[i * lanes + lane] = 1.0 + (i * 3 + lane) as f64 * 0.375;
+                        }
+                    }
+                    let spec_b = Spec1::new(ArrayD::from_shape_vec(IxDyn(&shape), flat).unwrap(), Some(Array1::from(x.clone())), strat);
+                    let run = |s: &Spec1<f64>| -> Outcome<ArrayD<f64>> { build1(s, |r| match r { Ok(i) => i.many(&qa), Err(o) => match o { Outcome::Err(k, m) => Outcome::Err(format!("build:{k}"), m), Outcome::Panic(m) => Outcome::Panic(format!("build: {m}")), _ => Outcome::Untypeable } }) };
+                    let what = format!("zero lane 0 of lane shape {lane_shape:?} with Mixed(kind {li}, kind {ri}), other lanes {other:?}");
+                    let (a, b) = match (run(&spec_a), run(&spec_b)) {
+                        (Outcome::Ok(a), Outcome::Ok(b)) => (a, b),
+                        (Outcome::Untypeable, _) | (_, Outcome::Untypeable) => continue,
+                        (oa, ob) => {
+                            ev.violation("C08:query-failed", &format!("{what}: {} / {}", oa.detail(), ob.detail()), id, spec1_json(&spec_a));
+                            return;
+                        }
+                    };
+                    ev.add("zero_block_gate_rows", 1);
+                    let (fa, fb): (Vec<f64>, Vec<f64>) = (a.iter().copied().collect(), b.iter().copied().collect());
+                    let (ca, cb) = (lane_column(&fa, lanes, 0), lane_column(&fb, lanes, 0));
+                    if lanes > 1 && bits_of(&ca) != bits_of(&cb) {
+                        ev.violation(
+                            "C08:lane-depends-on-other-lanes",
+                            &format!("{what}: lane 0 = {ca:?} while the other lanes are zero, {cb:?} when they are not"),
+                            id,
+                            spec1_json(&spec_a),
+                        );
+                        return;
+                    }
+                    // a non-zero prescribed end slope / curvature cannot be met by the zero function
+                    let prescribed = matches!(l, SB::FirstDeriv(v) | SB::SecondDeriv(v) if *v != 0.0) || matches!(r, SB::FirstDeriv(v) | SB::SecondDeriv(v) if *v != 0.0);
+                    if prescribed && ca.iter().all(|v| *v == 0.0) {
+                        ev.violation("C08:lane-depends-on-other-lanes", &format!("{what}: lane 0 is the zero function although a non-zero end derivative is prescribed"), id, spec1_json(&spec_a));
+                        return;
+                    }
+                }
+            }
+        }
+    }
+}
+
 fn main() {
     let args = Args::parse("C08");
     let n = args.budget(900, 150000);
@@ -471,6 +539,10 @@ fn main() {
             (_, true) => case2::<f32>(case, &args, ev, log),
         }
     });
+    let mut ev = ev;
+    if args.blocks() {
+        zero_block_gate(&mut ev);
+    }
     ev.finish(
         &args,
         "n-d data with 0..5 trailing axes (non-square, length-1, length-0; Ix1..Ix6 and IxDyn), all \
